@@ -59,3 +59,28 @@ Proof.
 Qed.
 Print Assumptions C08_counts_refuted.
 Print Assumptions C08_counts_fixed.
+
+(* ---- the dictionary iterator over a whole dictionary: FST.Search(aut, start, end) selects the
+   accepted terms in range, in ascending order; each is decoded into the reused scratch list ---- *)
+Require Import Spec Automata.
+Definition dict_iter (rd : tmp -> fstval -> tmp) (entries : list (str * fstval)) (a : aut) (lo hi : option str)
+  : list (str * N) :=
+  let sel := filter (fun e => accepts a (fst e) && in_range lo hi (fst e)) entries in
+  combine (map fst sel) (enumerate rd tmp0 (map snd sel)).
+
+Definition dict_spec (entries : list (str * fstval)) (a : aut) (lo hi : option str) : list (str * N) :=
+  map (fun e => (fst e, true_count (snd e)))
+      (filter (fun e => accepts a (fst e) && in_range lo hi (fst e)) entries).
+
+Theorem C08_dictionary_enumeration : forall entries a lo hi, Forall (fun e => wf (snd e)) entries ->
+  dict_iter read_fixed entries a lo hi = dict_spec entries a lo hi.
+Proof.
+  intros entries a lo hi Hwf. unfold dict_iter, dict_spec.
+  set (sel := filter _ entries).
+  assert (Hsel: Forall wf (map snd sel)).
+  { apply Forall_forall. intros v Hv. apply in_map_iff in Hv as (e & <- & He).
+    apply filter_In in He as [He _]. rewrite Forall_forall in Hwf. exact (Hwf e He). }
+  rewrite C08_counts_fixed by exact Hsel.
+  clear. induction sel as [|e sel IH]; [reflexivity|]. cbn [map combine]. now rewrite IH.
+Qed.
+Print Assumptions C08_dictionary_enumeration.
